@@ -86,6 +86,10 @@ class SimHostBase(HostContext):
         first = " ".join(stages[0])
         self.executed.append(first)
         ent = self.table.get(first)
+        if ent is None and os.path.basename(stages[0][0]) in REAL_TOOLS:
+            # the pre-filtering ``grep`` of a filterable file spec reads the (scratch) file itself: run it for real
+            self.clock.work(0.01)
+            return subproc.call([list(st) for st in stages], keep_rc=keep_rc, env=env)
         if ent is None:
             raise CalledProcessError(127, first, "%s: command not found" % stages[0][0])
         self.clock.work(ent.get("duration", 0.01))
@@ -119,7 +123,7 @@ def make_which(table):
 # ------------------------------------------------------------------------------------------------
 # generator
 # ------------------------------------------------------------------------------------------------
-UNICODE_POOL = ["\u00e9", "\u00fc\u00df", "\u4e2d\u6587", "\U0001f600", "\u0416", "\u00a0x", "\u200b"]
+UNICODE_POOL = ["\u00e9", "\u00fc\u00df", "\u4e2d\u6587", "\U0001f600", "\u0416", "\u00a0x", "\u200b", "\x0c", "\x85", "\u2028", "\x1c", "\x0b"]
 ASCII = "abcdefghijklmnopqrstuvwxyzABCXYZ0123456789 .,:;/-_=+*#@!?()[]{}<>|&%$'\"\\~^`\t"
 
 
@@ -1374,7 +1378,7 @@ class C11(Check):
             "field-by-field round trip for untouched entries, 'may be absent, never wrong' for damaged ones, load never raises")
     real_vs_stub = COMMON_REAL
     assumptions = [
-        "content is valid Unicode without line-break characters inside a line and without lone surrogates (the property's own exclusion)",
+        "content is valid Unicode without newline / carriage return inside a line and without lone surrogates (the property's own exclusion); the other characters str.splitlines() breaks at (FF, VT, NEL, FS, U+2028) ARE generated",
         "a data file truncated between the phases legitimately loads as a prefix of what was persisted",
         "persist-time faults make the whole archive 'damaged' for the oracle (only tolerance is demanded of it)",
     ]
@@ -1419,7 +1423,33 @@ def gen_e2e(st, tier, flavour):
             if rk.random() < 0.8:
                 sp["filters"] = rk.sample(E2E_FILTER_WORDS, rk.randint(1, 3))
         case["specs"].append(sp)
+    if rk.random() < 0.45:
+        # collect() runs its specs on a thread pool only while obfuscation is off; ONE pool then serves run_all and the
+        # persister's marshalling, and ONE Cleaner serves every pool thread
+        case["cfg"] = dict((k, False) for k in case["cfg"])
+        case["pool"] = {"seed": rk.getrandbits(32),
+                        "policy": ({"kind": "walk", "p": rk.choice([0.02, 0.05, 0.1, 0.3])} if rk.random() < 0.7 else
+                                   {"kind": "pct", "depth": rk.choice([1, 2, 3]), "horizon": rk.choice([200, 600, 2000])})}
+        for sp in case["specs"]:
+            if sp["factory"] == "glob_file" and rk.random() < 0.6:
+                sp["nfiles"] = 2
     return case
+
+
+E2E_TRACED = None
+
+
+def e2e_traced_files():
+    global E2E_TRACED
+    if E2E_TRACED is None:
+        import insights.cleaner as c0
+        import insights.cleaner.filters as c1
+        import insights.cleaner.pattern as c2
+        import insights.cleaner.keyword as c3
+        import insights.cleaner.password as c4
+        from insights.core import hydration as hy
+        E2E_TRACED = tuple(m.__file__ for m in (c0, c1, c2, c3, c4, sf, serde, hy))
+    return E2E_TRACED
 
 
 def run_e2e(case, flavour):
@@ -1439,8 +1469,8 @@ def run_e2e(case, flavour):
             env_case["files"][rel] = {"lines": raw, "nl": True}
             s2["path"] = "/" + rel
         elif sp["factory"] == "glob_file":
-            rel = "var/globbed/%s/a.conf" % sp["name"]
-            env_case["files"][rel] = {"lines": raw, "nl": True}
+            for fname in ["a.conf", "b.conf"][:sp.get("nfiles", 1)]:
+                env_case["files"]["var/globbed/%s/%s" % (sp["name"], fname)] = {"lines": raw, "nl": True}
             s2["patterns"] = ["/var/globbed/%s/*.conf" % sp["name"]]
         elif sp["factory"] == "simple_command":
             cmd = "/bin/show %s" % sp["name"]
@@ -1473,15 +1503,27 @@ def run_e2e(case, flavour):
                 graph = {}
                 for r in rps.values():
                     graph.update(dr.get_dependency_graph(r))
-                h = Hydration(env.out, ctx)
+                pool = None
+                if case.get("pool"):
+                    from simkit.simpool import SimPool
+                    pool = SimPool(random.Random(case["pool"]["seed"]), max_workers=None, policy=case["pool"]["policy"],
+                                   traced_files=e2e_traced_files(), max_steps=60000)
+                    stats["probes"]["e2e_pooled_collections"] = 1
+                h = Hydration(env.out, ctx, pool=pool)
                 broker.add_observer(h.make_persister(set(rps.values())))
                 escaped = None
                 try:
-                    dr.run_all(graph, broker, None)
+                    dr.run_all(graph, broker, pool)
                 except HarnessError:
                     raise
                 except Exception as e:
                     escaped = e
+                finally:
+                    if pool is not None:
+                        pool.shutdown()
+                        stats["probes"]["e2e_pool_switches"] = len(pool.switches)
+                        if pool.capped:
+                            stats["probes"]["e2e_pool_step_cap_reached"] = 1
                 if escaped is not None:
                     viols.append(V(flavour + ".e2e", "collection-raised:%s" % type(escaped).__name__, "collection with a cleaner raised %r" % (escaped,)))
                 final = w3.mappings(cleaner)
@@ -1511,6 +1553,23 @@ def run_e2e(case, flavour):
                             viols.append(V("C07.e2e", "collected-without-filters:%s" % sp["factory"],
                                            "filterable spec %s (%s) has no filter but was collected into the archive" % (name, sp["factory"])))
                         continue
+                    if sp["filters"]:
+                        # ---- C07: no matching line is dropped (budgets are the default 10000, never used up here)
+                        want = [l for l in raw if any(f in l for f in sp["filters"]) and
+                                (sp["no_redact"] or not any((kd == "plain" and p in l) or (kd == "regex" and __import__("re").search(p, l))
+                                                           for kd, p in pats))]
+                        nfiles = sp.get("nfiles", 1) if sp["factory"] == "glob_file" else 1
+                        if want and len(stored) < nfiles:
+                            viols.append(V("C07.e2e", "matching-lines-but-not-stored:%s" % sp["factory"],
+                                           "spec %s: %d line(s) match its filters %r but %d of %d file(s) were stored" % (
+                                               name, len(want), sp["filters"], len(stored), nfiles)))
+                        for lines in stored:
+                            got = [l for l in lines if l]
+                            if len(got) != len(want):
+                                viols.append(V("C07.e2e", "matching-line-dropped:%s" % sp["factory"],
+                                               "spec %s: %d input lines match the filters %r and no exclusion pattern, %d lines were stored: %r" % (
+                                                   name, len(want), sp["filters"], len(got), got[:3])))
+                                break
                     for lines in stored:
                         # ---- C10: never stored empty
                         if not any(l.strip() for l in lines):
